@@ -229,11 +229,11 @@ C02Core == { [v |-> v, s |-> s, b |-> BaseMid, enc |-> EncPlain, dfi |-> i, tm |
 \* to the last probe in the last, partial poll of a 350 ms timeout
 C02SerialShort(v) ==
     [Common(v, TRUE, BaseMid, 1, 3) EXCEPT !.timeout_ms = 80] @@
-    [id |-> "C02/" \o v \o "/timeout_shorter_than_poll", label |-> v \o "/timeout_shorter_than_poll", drain |-> FALSE,
+    [id |-> "C02/" \o v \o "/timeout_shorter_than_poll", label |-> v \o "/timeout_shorter_than_poll", drain |-> TRUE,
      path |-> PathOf([t \in 1..3 |-> IF t = 3 THEN <<[form |-> DestForm1(v), delay_us |-> 9000]>> ELSE <<[form |-> "te", from |-> Router(v, t), delay_us |-> 2000 + 900 * t]>>])]
 C02SerialTail(v) ==
     [Common(v, TRUE, BaseMid, 1, 3) EXCEPT !.timeout_ms = 350] @@
-    [id |-> "C02/" \o v \o "/answer_in_last_partial_poll", label |-> v \o "/answer_in_last_partial_poll", drain |-> FALSE,
+    [id |-> "C02/" \o v \o "/answer_in_last_partial_poll", label |-> v \o "/answer_in_last_partial_poll", drain |-> TRUE,
      path |-> PathOf([t \in 1..3 |-> <<[form |-> "te", from |-> Router(v, t), delay_us |-> IF t = 3 THEN 320000 ELSE 2000 + 900 * t]>>])]
 C02All(u) == { C02SerialShort(v) : v \in {"tcp", "tcp_paris"} } \cup { C02SerialTail(v) : v \in {"tcp", "tcp_paris"} } \cup { C02Of(p) : p \in C02Core \cup RandomSubset(u, C02Params) }
 
